@@ -68,9 +68,10 @@ Proof.
 Qed.
 Lemma cnt_zero f sl : (forall h x, slot sl h = Some x -> f x = 0%nat) -> cnt f sl = 0%nat.
 Proof.
-  unfold cnt, slot. induction sl as [|o r IH]; intros H; cbn; [reflexivity|].
+  induction sl as [|o r IH]; intros H; [reflexivity|].
+  change (cnt f (o :: r)) with (oh f o + cnt f r)%nat.
   rewrite IH.
-  - destruct o as [x|]; cbn; [|reflexivity]. rewrite (H 0%nat x eq_refl). reflexivity.
+  - destruct o as [x|]; cbn [oh]; [|reflexivity]. rewrite (H 0%nat x eq_refl). reflexivity.
   - intros h x Hx. apply (H (S h) x). exact Hx.
 Qed.
 
@@ -162,4 +163,149 @@ Proof.
   all: try (destruct Hpc as [Hp1 Hp2]).
   all: try solve [ split; [ eapply wop_code_nonempty; eauto | congruence ] ].
   all: try solve [ split; [ destruct (m_rest _); [congruence|congruence] | assumption ] ].
+Qed.
+
+(* ---------- per-thread views ---------- *)
+Definition loc0 : loc := Loc [] Idle [].
+Definition locof (ls : list loc) (u : nat) : loc := match nth_error ls u with Some l => l | None => loc0 end.
+Lemma locof_upd ls t l l' u : nth_error ls t = Some l ->
+  locof (upd ls t l') u = if Nat.eqb u t then l' else locof ls u.
+Proof.
+  intros H. unfold locof. destruct (Nat.eqb_spec u t) as [->|Hne].
+  - rewrite (nth_upd_eq _ _ _ _ H). reflexivity.
+  - rewrite nth_upd_ne by auto. reflexivity.
+Qed.
+Lemma locof_at ls t l : nth_error ls t = Some l -> locof ls t = l.
+Proof. intros H. unfold locof. rewrite H. reflexivity. Qed.
+Arguments locof : simpl never.
+
+(* ---------- the mutex ---------- *)
+Definition own1 (g : glob) (u : nat) : nat :=
+  match owner g with Some a => b2n (Nat.eqb a u) | None => 0%nat end.
+Definition shc (g : glob) (u : nat) : nat := count_occ Nat.eq_dec (sharers g) u.
+
+Lemma count_occ_remove1 t l u :
+  count_occ Nat.eq_dec (remove1 t l) u = if Nat.eqb u t then pred (count_occ Nat.eq_dec l t) else count_occ Nat.eq_dec l u.
+Proof.
+  induction l as [|x r IH]; cbn [remove1 count_occ].
+  - destruct (Nat.eqb u t); reflexivity.
+  - destruct (Nat.eqb_spec t x) as [Etx|Hne].
+    + subst x. destruct (Nat.eq_dec t t) as [_|Hn]; [|congruence].
+      destruct (Nat.eqb_spec u t) as [Eut|Hux].
+      * subst u. reflexivity.
+      * destruct (Nat.eq_dec t u); [congruence|reflexivity].
+    + cbn [count_occ]. rewrite IH. clear IH.
+      destruct (Nat.eqb_spec u t) as [Eut|Hut].
+      * subst u. destruct (Nat.eq_dec x t); [congruence|reflexivity].
+      * reflexivity.
+Qed.
+
+(* what a step of thread t did to the mutex: nothing, took it, or released it (in actual mode sm) *)
+Definition mrel (t : nat) (k : option (bool * bool)) (g g' : glob) : Prop :=
+  match k with
+  | None => owner g' = owner g /\ sharers g' = sharers g
+  | Some (true, sm) => obtainable sm g = true /\ owner g' = owner (take sm t g) /\ sharers g' = sharers (take sm t g)
+  | Some (false, sm) => owner g' = owner (drop sm t g) /\ sharers g' = sharers (drop sm t g)
+  end.
+Definition addx (k : option (bool * bool)) : nat := match k with Some (true, false) => 1%nat | _ => 0%nat end.
+Definition subx (k : option (bool * bool)) : nat := match k with Some (false, false) => 1%nat | _ => 0%nat end.
+Definition adds (k : option (bool * bool)) : nat := match k with Some (true, true) => 1%nat | _ => 0%nat end.
+Definition subs (k : option (bool * bool)) : nat := match k with Some (false, true) => 1%nat | _ => 0%nat end.
+
+Record Inv1 (cf : config) (g : glob) (ls : list loc) : Prop := {
+  I_ok : forall u l, nth_error ls u = Some l -> locok cf l;
+  I_x : forall u, lx cf (locof ls u) = own1 g u;
+  I_s : forall u, lsh cf (locof ls u) = shc g u;
+  I_m : owner g <> None -> sharers g = []
+}.
+
+Lemma Inv1_upd cf g ls t l g' l' k :
+  Inv1 cf g ls -> nth_error ls t = Some l -> locok cf l' -> mrel t k g g' ->
+  (lx cf l' + subx k = lx cf l + addx k)%nat -> (lsh cf l' + subs k = lsh cf l + adds k)%nat ->
+  Inv1 cf g' (upd ls t l').
+Proof.
+  intros HI Hl Hok Hm Hx Hs.
+  pose proof (I_x _ _ _ HI) as IX. pose proof (I_s _ _ _ HI) as IS. pose proof (I_m _ _ _ HI) as IM.
+  pose proof (IX t) as IXt. pose proof (IS t) as ISt. rewrite (locof_at _ _ _ Hl) in IXt, ISt.
+  unfold own1, shc in *.
+  constructor.
+  - intros u l0 Hu. destruct (nth_upd _ _ _ _ _ Hu) as [[-> [-> _]]|[_ Hu']]; [exact Hok|]. eapply I_ok; eauto.
+  - intros u. rewrite (locof_upd _ _ _ _ _ Hl). specialize (IX u).
+    destruct k as [[[|] [|]]|]; cbn [mrel addx subx adds subs take drop set_mutex owner sharers obtainable] in *.
+    + destruct Hm as [Hf [Ho Hsh]]. rewrite Ho. destruct (Nat.eqb_spec u t) as [->|Hne]; [lia|exact IX].
+    + destruct Hm as [Hf [Ho Hsh]]. unfold free_x in Hf. rewrite Ho.
+      destruct (owner g) eqn:Eo; [discriminate|]. cbn.
+      destruct (Nat.eqb_spec u t) as [->|Hne].
+      * rewrite Nat.eqb_refl. cbn. lia.
+      * destruct (Nat.eqb_spec t u); [congruence|]. cbn. lia.
+    + destruct Hm as [Ho Hsh]. rewrite Ho. destruct (Nat.eqb_spec u t) as [->|Hne]; [lia|exact IX].
+    + destruct Hm as [Ho Hsh]. rewrite Ho.
+      destruct (owner g) as [a|] eqn:Eo; [|cbn in IXt; lia].
+      destruct (Nat.eqb_spec a t) as [->|Hat]; [|cbn in IXt; lia].
+      destruct (Nat.eqb_spec u t) as [->|Hne]; [cbn in *; lia|].
+      destruct (Nat.eqb_spec t u); [congruence|]. cbn in IX. exact IX.
+    + destruct Hm as [Ho Hsh]. rewrite Ho. destruct (Nat.eqb_spec u t) as [->|Hne]; [lia|exact IX].
+  - intros u. rewrite (locof_upd _ _ _ _ _ Hl). specialize (IS u).
+    destruct k as [[[|] [|]]|]; cbn [mrel addx subx adds subs take drop set_mutex owner sharers obtainable] in *.
+    + destruct Hm as [Hf [Ho Hsh]]. rewrite Hsh. rewrite count_occ_app. cbn [count_occ].
+      destruct (Nat.eqb_spec u t) as [->|Hne].
+      * destruct (Nat.eq_dec t t); [lia|congruence].
+      * destruct (Nat.eq_dec t u); [congruence|lia].
+    + destruct Hm as [Hf [Ho Hsh]]. rewrite Hsh. destruct (Nat.eqb_spec u t) as [->|Hne]; [lia|exact IS].
+    + destruct Hm as [Ho Hsh]. rewrite Hsh. rewrite count_occ_remove1.
+      destruct (Nat.eqb_spec u t) as [->|Hne]; [lia|exact IS].
+    + destruct Hm as [Ho Hsh]. rewrite Hsh. destruct (Nat.eqb_spec u t) as [->|Hne]; [lia|exact IS].
+    + destruct Hm as [Ho Hsh]. rewrite Hsh. destruct (Nat.eqb_spec u t) as [->|Hne]; [lia|exact IS].
+  - destruct k as [[[|] [|]]|]; cbn [mrel addx subx adds subs take drop set_mutex owner sharers obtainable] in *.
+    + destruct Hm as [Hf [Ho Hsh]]. unfold free_s in Hf. rewrite Ho. destruct (owner g); [discriminate|]. congruence.
+    + destruct Hm as [Hf [Ho Hsh]]. unfold free_x in Hf. rewrite Hsh. intros _.
+      destruct (owner g); [discriminate|]. destruct (sharers g); [reflexivity|discriminate].
+    + destruct Hm as [Ho Hsh]. rewrite Ho, Hsh. intros Hn. rewrite (IM Hn). reflexivity.
+    + destruct Hm as [Ho Hsh]. rewrite Ho. congruence.
+    + destruct Hm as [Ho Hsh]. rewrite Ho, Hsh. exact IM.
+Qed.
+
+(* ---------- the primitive operations ---------- *)
+Lemma acquire_true am sm t c g g' e : acquire am sm t c g = Some (g', true, e) ->
+  obtainable sm g = true /\ g' = set_nacq (take sm t g) (S (nacq g)).
+Proof.
+  unfold acquire. destruct am; destruct (obtainable sm g) eqn:Eo; cbn; intros H; try discriminate; inversion H; auto.
+  destruct (Nat.eqb c 2); inversion H.
+Qed.
+Lemma acquire_false am sm t c g g' e : acquire am sm t c g = Some (g', false, e) ->
+  obtainable sm g = false /\ g' = g.
+Proof.
+  unfold acquire. destruct am; destruct (obtainable sm g) eqn:Eo; cbn; intros H; try discriminate; inversion H; auto.
+  destruct (Nat.eqb c 2); inversion H; auto.
+Qed.
+Lemma acquire_block sm t c g g' ok e : acquire ABlock sm t c g = Some (g', ok, e) -> ok = true.
+Proof. unfold acquire. destruct (obtainable sm g); intros H; inversion H; reflexivity. Qed.
+Lemma release_eq sm t i g g' e : release sm t i g = (g', e) -> g' = add_released (drop sm t g) i.
+Proof. unfold release. intros H. inversion H. reflexivity. Qed.
+
+Lemma mrel_take sm t g n : obtainable sm g = true -> mrel t (Some (true, sm)) g (set_nacq (take sm t g) n).
+Proof. intros H. cbn. destruct sm; cbn; auto. Qed.
+Lemma mrel_drop sm t g i : mrel t (Some (false, sm)) g (add_released (drop sm t g) i).
+Proof. cbn. destruct sm; cbn; auto. Qed.
+Lemma exec_mi_mutex cf t i ph r ok g :
+  owner (m_g (exec_mi cf t i ph r ok g)) = owner g /\ sharers (m_g (exec_mi cf t i ph r ok g)) = sharers g.
+Proof.
+  unfold exec_mi. destruct i as [fid snap| |tg s| |e d]; cbn.
+  - destruct (existsb _ _); cbn; auto.
+  - destruct ph; cbn; auto.
+  - destruct tg; destruct ph; cbn; auto.
+  - destruct ph as [|[|[|ph]]]; cbn; auto.
+  - destruct ph; cbn; auto.
+Qed.
+
+Lemma Inv1_init cf progs : Inv1 cf (gl (init cf progs)) (thr (init cf progs)).
+Proof.
+  assert (P : forall u, locof (thr (init cf progs)) u = loc0 \/ exists p, locof (thr (init cf progs)) u = Loc p Idle (repeat None NSLOTS)).
+  { intros u. unfold locof, init. cbn [thr]. rewrite nth_error_map. destruct (nth_error progs u); cbn; eauto. }
+  constructor.
+  - intros u l Hu. unfold init in Hu. cbn [thr] in Hu. rewrite nth_error_map in Hu.
+    destruct (nth_error progs u); inversion Hu; subst. split; cbn; auto.
+  - intros u. destruct (P u) as [->|[p ->]]; reflexivity.
+  - intros u. destruct (P u) as [->|[p ->]]; reflexivity.
+  - reflexivity.
 Qed.
